@@ -752,66 +752,114 @@ def run_action(it, act, data, k):
     return out, evs, desc
 
 
-def task_edges(args):
-    """Replay a batch of model behaviours.  -> list of result dicts."""
-    data, batch = args
-    results = []
-    for edge in batch:
-        sec, leg, hist = edge["sec"], edge["leg"], edge["hist"]
-        for f in os.listdir(CTX.mods):
-            os.remove(os.path.join(CTX.mods, f))
-        res = {"edge": edge, "events": [], "descs": [], "details": [], "drift": [], "outcomes": []}
-        holder = {}
+def _model_drift(post, sec, it, det, ev, outcome, data):
+    """Model prediction vs code for what the statement does not name (drift)."""
+    drift = []
+    want_reach = set(post["reach"])
+    got_reach = det["reach"]
+    if want_reach != got_reach:
+        drift.append(("reach-differs-from-model",
+                      {"only_model": sorted(want_reach - got_reach)[:6],
+                       "only_code": sorted(got_reach - want_reach)[:6]}))
+    want_sess = {(b["name"], b["id"]) for b in post["session"]}
+    got_sess = direct_bindings(it.environment, data["classmap"])
+    if want_sess != got_sess:
+        drift.append(("session-bindings-differ-from-model",
+                      {"only_model": sorted(want_sess - got_sess)[:6],
+                       "only_code": sorted(got_sess - want_sess)[:6]}))
+    if outcome is not None:
+        raised = outcome != "val"
+        if post["raises"] == "yes" and not raised:
+            drift.append(("assignment-form-did-not-raise", {}))
+        if post["raises"] == "no" and raised:
+            drift.append(("action-raised:" + outcome, {}))
+    if not sec and ev["flag"] in ("TRUE", "FALSE") and post["flag"] != (ev["flag"] == "TRUE"):
+        drift.append(("nonsecure-flag-differs-from-model", {}))
+    return drift
 
-        def boot():
-            holder["it"] = make_interp(sec, leg)
-        out, evs = recorded(boot, limit=BOOT_LIMIT, req=True)
-        if out[0] != "val":
-            res["boot_failed"] = out[1] or out[0]
-            results.append(res)
+
+def _in_fork(fn):
+    """Run fn() in a forked copy of this process (the interpreter state at the
+    end of the common prefix is inherited, the action cannot disturb its
+    siblings) and return its JSON-able result."""
+    r, w = os.pipe()
+    pid = os.fork()
+    if pid == 0:
+        code = 0
+        try:
+            os.close(r)
+            try:
+                out = {"ok": fn()}
+            except BaseException as e:  # noqa: BLE001
+                out = {"fail": type(e).__name__ + ": " + str(e)[:200]}
+            buf = json.dumps(out).encode()
+            while buf:
+                n = os.write(w, buf)
+                buf = buf[n:]
+        except BaseException:  # noqa: BLE001
+            code = 3
+        finally:
+            os._exit(code)
+    os.close(w)
+    chunks = []
+    while True:
+        c = os.read(r, 1 << 16)
+        if not c:
+            break
+        chunks.append(c)
+    os.close(r)
+    os.waitpid(pid, 0)
+    try:
+        out = json.loads(b"".join(chunks).decode())
+    except ValueError:
+        raise MachineryError("a forked replay died without a result")
+    if "fail" in out:
+        raise MachineryError("forked replay failed: " + out["fail"])
+    return out["ok"]
+
+
+def task_edges(args):
+    """Replay one group of model behaviours that share (configuration, history
+    prefix): boot and run the prefix once, then every last action on a forked
+    copy of that interpreter.
+    -> {"sec","leg","prefix": [obs items], "lasts": [obs items], ...}"""
+    data, sec, leg, prefix, lasts = args
+    for f in os.listdir(CTX.mods):
+        os.remove(os.path.join(CTX.mods, f))
+    res = {"sec": sec, "leg": leg, "hist": prefix, "prefix": [], "lasts": [], "drift": []}
+    holder = {}
+
+    def boot():
+        holder["it"] = make_interp(sec, leg)
+    out, evs = recorded(boot, limit=BOOT_LIMIT, req=True)
+    if out[0] != "val":
+        res["boot_failed"] = out[1] or out[0]
+        return res
+    it = holder["it"]
+    ev, det = observe(it, data, "boot", evs)
+    res["prefix"].append({"event": ev, "desc": "Interpreter(secure=%s, legacy=%s)" % (sec, leg),
+                          "bad": det["bad"]})
+    for k, act in enumerate(prefix):
+        out, evs, desc = run_action(it, act, data, k)
+        ev, det = observe(it, data, "act", evs)
+        res["prefix"].append({"event": ev, "desc": desc, "bad": det["bad"]})
+    k = len(prefix)
+    for last in lasts:
+        if last["act"] is None:          # the boot state itself
+            res["drift"] += [(kind, dict(smp, hist=[])) for kind, smp in
+                             _model_drift(last["post"], sec, it, det, ev, None, data)]
             continue
-        it = holder["it"]
-        ev, det = observe(it, data, "boot", evs)
-        boot_reach = det["reach"]
-        res["events"].append(ev)
-        res["descs"].append("Interpreter(secure=%s, legacy=%s)" % (sec, leg))
-        res["details"].append(det["bad"])
-        for k, act in enumerate(hist):
-            out, evs, desc = run_action(it, act, data, k)
+
+        def one(last=last):
+            out, evs, desc = run_action(it, last["act"], data, k)
             ev, det = observe(it, data, "act", evs)
-            res["events"].append(ev)
-            res["descs"].append(desc)
-            res["details"].append(det["bad"])
-            res["outcomes"].append(out[0] if out[0] != "exc" else "exc:" + str(out[1]))
-        # model prediction vs code (drift, never a verdict)
-        post = edge.get("post")
-        if post is not None:
-            want_reach = set(post["reach"])
-            got_reach = det["reach"] if hist else boot_reach
-            if want_reach != got_reach:
-                res["drift"].append(("reach-differs-from-model",
-                                     {"only_model": sorted(want_reach - got_reach)[:6],
-                                      "only_code": sorted(got_reach - want_reach)[:6]}))
-            want_sess = {(b["name"], b["id"]) for b in post["session"]}
-            got_sess = direct_bindings(it.environment, data["classmap"])
-            if want_sess != got_sess:
-                res["drift"].append(("session-bindings-differ-from-model",
-                                     {"only_model": sorted(want_sess - got_sess)[:6],
-                                      "only_code": sorted(got_sess - want_sess)[:6]}))
-            raised = res["outcomes"][-1] != "val" if res["outcomes"] else False
-            if post["raises"] == "yes" and not raised:
-                res["drift"].append(("assignment-form-did-not-raise", {}))
-            if post["raises"] == "no" and raised:
-                res["drift"].append(("action-raised:" + res["outcomes"][-1], {}))
-            if post["flag"] != (ev["flag"] == "TRUE") and ev["flag"] in ("TRUE", "FALSE") and not sec:
-                res["drift"].append(("nonsecure-flag-differs-from-model", {}))
-        res["reach_n"] = len(det["reach"])
-        res["objects"] = det["objects"]
-        results.append(res)
-    # drop the bulky edge payloads that the parent already has
-    for r in results:
-        r["edge"] = {"sec": r["edge"]["sec"], "leg": r["edge"]["leg"], "hist": r["edge"]["hist"]}
-    return results
+            outcome = out[0] if out[0] != "exc" else "exc:" + str(out[1])
+            drift = _model_drift(last["post"], sec, it, det, ev, outcome, data) if last.get("post") else []
+            return {"event": ev, "desc": desc, "bad": det["bad"], "outcome": outcome, "drift": drift}
+        item = _in_fork(one)
+        item["act"] = last["act"]
+        res["lasts"].append(item)
+    return res
 
 
 def task_gate(data):
@@ -956,6 +1004,25 @@ class Pool:
 
     def close(self):
         self.ex.shutdown(wait=True, cancel_futures=True)
+
+
+def group_edges(edges, chunk=80):
+    """(sec, leg, prefix, [last action + expected observation]) groups."""
+    groups = {}
+    order = []
+    for e in edges:
+        hist = e["hist"]
+        k = (e["sec"], e["leg"], json.dumps(hist[:-1], sort_keys=True))
+        if k not in groups:
+            groups[k] = (e["sec"], e["leg"], hist[:-1], [])
+            order.append(k)
+        groups[k][3].append({"act": hist[-1] if hist else None, "post": e.get("post")})
+    out = []
+    for k in order:
+        sec, leg, prefix, lasts = groups[k]
+        for i in range(0, len(lasts), chunk):
+            out.append((sec, leg, prefix, lasts[i:i + chunk]))
+    return out
 
 
 def extract(root, tier, seed):
@@ -1227,9 +1294,8 @@ def _run(run, quick, root):
              "bootsym": side["bootsym"]}
     pool = Pool(os.path.join(root, "r"))
     try:
-        nb = max(1, len(edges) // (NWORKERS * 6))
-        batches = [edges[i:i + nb] for i in range(0, len(edges), nb)]
-        f_edges = [pool.ex.submit(task_edges, (wdata, b)) for b in batches]
+        groups = group_edges(edges)
+        f_edges = [pool.ex.submit(task_edges, (wdata,) + g) for g in groups]
         f_gate = pool.ex.submit(task_gate, wdata)
         jobs = []
         for leg in (False, True):
@@ -1244,7 +1310,7 @@ def _run(run, quick, root):
                 return f.result(timeout=3000)
             except cf.process.BrokenProcessPool as e:
                 raise MachineryError("a worker process died: " + str(e))
-        edge_results = [r for f in f_edges for r in get(f)]
+        edge_results = [get(f) for f in f_edges]
         _t("edges replayed")
         gate_results = get(f_gate)
         call_results = [get(f) for f in f_calls]
@@ -1255,27 +1321,38 @@ def _run(run, quick, root):
     events, metas = [], []
     boot_failed = []
     nsec_edges = nact = 0
-    nonsec_blind = []
     for r in edge_results:
-        e = r["edge"]
-        cfgs = f"secure={e['sec']},legacy={e['leg']}"
+        cfgs = f"secure={r['sec']},legacy={r['leg']}"
         if r.get("boot_failed"):
             boot_failed.append(cfgs + ":" + str(r["boot_failed"]))
             continue
         for kind, smp in r["drift"]:
-            run.drift(kind, {"cfg": cfgs, "hist": [act_str(side, a) for a in e["hist"]], **smp})
-        nact += len(e["hist"])
-        if not e["sec"]:
+            run.drift(kind, {"cfg": cfgs, **smp})
+        for item in r["lasts"]:
+            nact += 1
+            for kind, smp in item["drift"]:
+                run.drift(kind, {"cfg": cfgs, "hist": [act_str(side, a) for a in r["hist"] + [item["act"]]], **smp})
+        if not r["sec"]:
             continue
-        nsec_edges += 1
-        events.append({"op": "new", "sec": True, "leg": e["leg"]})
+        leg = r["leg"]
+        # the shared prefix: one interpreter, observed after its construction and after every action
+        events.append({"op": "new", "sec": True, "leg": leg})
         metas.append(("new", "", {}, []))
-        for i, ev in enumerate(r["events"]):
-            hist = e["hist"][:i]
-            key = f"A:legacy={int(e['leg'])}:" + " ; ".join(r["descs"][1:i + 1])
-            case = {"kind": "edge", "sec": True, "leg": e["leg"], "hist": hist}
-            events.append(ev)
-            metas.append((key, " ; ".join(r["descs"][:i + 1]), case, r["details"][i]))
+        descs = [p["desc"] for p in r["prefix"]]
+        for i, p in enumerate(r["prefix"]):
+            key = f"A:legacy={int(leg)}:" + " ; ".join(descs[1:i + 1])
+            case = {"kind": "edge", "sec": True, "leg": leg, "hist": r["hist"][:i]}
+            events.append(p["event"])
+            metas.append((key, " ; ".join(descs[:i + 1]), case, p["bad"]))
+        # every last action ran on its own copy of that interpreter
+        for item in r["lasts"]:
+            nsec_edges += 1
+            events.append({"op": "new", "sec": True, "leg": leg})
+            metas.append(("new", "", {}, []))
+            key = f"A:legacy={int(leg)}:" + " ; ".join(descs[1:] + [item["desc"]])
+            case = {"kind": "edge", "sec": True, "leg": leg, "hist": r["hist"] + [item["act"]]}
+            events.append(item["event"])
+            metas.append((key, " ; ".join(descs + [item["desc"]]), case, item["bad"]))
     if len(events) > 3:
         run.sample({"OBS": events[1:4]})
     for g in gate_results:
